@@ -74,6 +74,16 @@ THMove == /\ Tr[l].e = "HMove"
              /\ hs' = IF e.to = e.obj THEN hs ELSE [hs EXCEPT ![e.to] = hs[e.obj], ![e.obj] = Garbage]
           /\ UNCHANGED <<ms, ks, D, kc>>
 
+\* White-box probe (harness op hinject): the state object was overwritten with chosen chaining values (L, R) - values a
+\* real message reaches with probability 2^-32 per word (a word of R all ones, all zero, ...) - and the following events
+\* are judged from exactly that state.  HInjectSkip: the probe did not recognise the private layout and did nothing.
+THInject == /\ Tr[l].e \in {"HInject", "HInjectSkip"}
+            /\ LET e == Tr[l] IN
+               IF e.e = "HInjectSkip" THEN hs' = hs
+               ELSE /\ Judge(e.canary = 1 /\ Len(e.L) = 16 /\ Len(e.R) = 16, l, e, "plan error: injected chaining values")
+                    /\ hs' = [hs EXCEPT ![e.obj] = [L |-> BytesBits(e.L), R |-> BytesBits(e.R), buf |-> <<>>, st |-> "live", msg |-> <<>>]]
+            /\ UNCHANGED <<ms, ks, D, kc>>
+
 \* every argument expression of an API call is evaluated exactly once (events of object calls carry the count)
 EvalsOK == LET e == Tr[l] IN ("evals" \in DOMAIN e) => Judge(e.evals = 1, l, e, "the object argument of the call was evaluated more than once")
 
@@ -279,7 +289,7 @@ TPbBlock == /\ Tr[l].e = "PbBlock"
 \* events of the other families (system-level traces): stuttering steps for this specification
 Own == {"Reset", "Garbage", "Hash", "HInit", "HReinit", "HUpdate", "HFinal", "HFree", "Hmac", "HmInit", "HmReinit", "HmUpdate",
         "HmFinal", "HmFree", "Hkdf", "HkdfHead", "PbHead", "HkdfBlock", "HkExtract", "HkExpand", "HkExpandCtl", "HkFree",
-        "Pbkdf2", "PbBlock", "PbLink", "PbXor", "HashHuge", "KdfLearn", "KdfPrefix", "KdfExtract", "KdfExpand", "HMove"}
+        "Pbkdf2", "PbBlock", "PbLink", "PbXor", "HashHuge", "KdfLearn", "KdfPrefix", "KdfExtract", "KdfExpand", "HMove", "HInject", "HInjectSkip"}
 TForeign == Tr[l].e \notin Own \cup {"Fault", "San", "Hang", "Garbled"} /\ UNCHANGED <<hs, ms, ks, D, kc>>
 
 (***************************************************************************)
@@ -328,7 +338,7 @@ Next == /\ l <= Len(Tr)
         /\ EvalsOK
         /\ \/ TReset \/ TGarbage \/ THash \/ THInit \/ THUpdate \/ THFinal \/ THFree
            \/ THmac \/ THmInit \/ THmUpdate \/ THmFinal \/ THmFree
-           \/ TForeign \/ THMove \/ TKdfLearn \/ TKdfPrefix \/ TKdfExtract \/ TKdfExpand \/ THashHuge \/ TPbLink \/ TPbXor \/ THkdf \/ THkdfHead \/ TPbHead \/ THkdfBlock \/ THkExtract \/ THkExpand \/ THkExpandCtl \/ THkFree \/ TPbkdf2 \/ TPbBlock
+           \/ TForeign \/ THMove \/ THInject \/ TKdfLearn \/ TKdfPrefix \/ TKdfExtract \/ TKdfExpand \/ THashHuge \/ TPbLink \/ TPbXor \/ THkdf \/ THkdfHead \/ TPbHead \/ THkdfBlock \/ THkExtract \/ THkExpand \/ THkExpandCtl \/ THkFree \/ TPbkdf2 \/ TPbBlock
 
 Spec == Init /\ [][Next]_vars
 TraceAccepted == Accepted(Len(Tr))
